@@ -9,6 +9,7 @@ package handlers
 // the sum of the counts in the AGGREGATE messages against the number of lines, and whether the session ends.
 
 import (
+	"syscall"
 	"encoding/base64"
 	"fmt"
 	"os"
@@ -36,6 +37,10 @@ type c06Case struct {
 	Limit  int       `json:"limit"`
 	Sched  []c06Step `json:"sched"`
 	Free   bool      `json:"free"` // no gating at all
+	// Interim: the periodic serialisation runs in the middle of the read.  One input that delivers Lines[0] lines, pauses
+	// beyond the query's interval (1 s) and delivers 3 more; every line is its own group (more groups than the
+	// 10-entry message queue holds) and the consumer needs 3 ms per message.
+	Interim bool `json:"interim"`
 }
 
 type c06Result struct {
@@ -161,7 +166,30 @@ func c06Run(c c06Case, base string) (res c06Result) {
 	defer os.RemoveAll(dir)
 	w := &c06World{fileOf: map[string]int{}, free: c.Free}
 	w.cond = sync.NewCond(&w.mu)
-	for f := 1; f <= c.NFiles; f++ {
+	if c.Interim {
+		p := filepath.Join(dir, "f01.log")
+		if err := syscall.Mkfifo(p, 0644); err != nil {
+			res.Problem = "mkfifo: " + err.Error()
+			return
+		}
+		w.fileOf[p] = 1
+		res.Total = c.Lines[0] + 3
+		go func() {
+			fd, err := os.OpenFile(p, os.O_WRONLY, 0)
+			if err != nil {
+				return
+			}
+			defer fd.Close()
+			for i := 0; i < c.Lines[0]; i++ {
+				fmt.Fprintf(fd, "interim case line %d\n", i)
+			}
+			time.Sleep(1300 * time.Millisecond)
+			for i := 0; i < 3; i++ {
+				fmt.Fprintf(fd, "late line %d\n", i)
+			}
+		}()
+	}
+	for f := 1; f <= c.NFiles && !c.Interim; f++ {
 		p := filepath.Join(dir, fmt.Sprintf("f%02d.log", f))
 		var sb strings.Builder
 		for i := 0; i < c.Lines[f-1]; i++ {
@@ -172,6 +200,9 @@ func c06Run(c c06Case, base string) (res c06Result) {
 		res.Total += c.Lines[f-1]
 	}
 	u, _ := user.New("vuser", "harness")
+	if c.Interim {
+		u, _ = user.New(config.ScheduleUser, "harness") // ordinary users may only open regular files; the input here is a FIFO
+	}
 	h := NewServerHandler(u, make(chan struct{}, c.Limit), make(chan struct{}, 4))
 	c06Worlds.Store(c06Addr(h), w)
 	defer c06Worlds.Delete(c06Addr(h))
@@ -196,6 +227,9 @@ func c06Run(c c06Case, base string) (res c06Result) {
 					close(ended)
 					return
 				}
+				if c.Interim {
+					time.Sleep(3 * time.Millisecond)
+				}
 				if strings.HasPrefix(msg, "AGGREGATE|") {
 					for _, part := range strings.Split(msg, "∥") {
 						if strings.HasPrefix(part, "count($line)≔") {
@@ -213,7 +247,11 @@ func c06Run(c c06Case, base string) (res c06Result) {
 		}
 	}()
 	go func() {
-		h.Write(c06Frame("map select count($line) group by $hostname interval 3600"))
+		if c.Interim {
+			h.Write(c06Frame("map select count($line) group by $line interval 1"))
+		} else {
+			h.Write(c06Frame("map select count($line) group by $hostname interval 3600"))
+		}
 		// the aggregate object exists now: register it for the agg.* trace points
 		if h.aggregate != nil {
 			c06Worlds.Store(c06Addr(h.aggregate), w)
